@@ -6,9 +6,29 @@ use crate::push::vector::IntVector;
 use std::collections::HashMap;
 use std::fmt;
 use std::hash::{Hash, Hasher};
+#[cfg(not(pushr_verif_loom))]
 use std::sync::atomic::{AtomicUsize, Ordering};
+#[cfg(pushr_verif_loom)]
+use loom::sync::atomic::{AtomicUsize, Ordering};
 
+#[cfg(not(pushr_verif_loom))]
 static NODE_COUNTER: AtomicUsize = AtomicUsize::new(1);
+#[cfg(pushr_verif_loom)]
+loom::lazy_static! {
+    static ref NODE_COUNTER: AtomicUsize = AtomicUsize::new(1);
+}
+
+/// Verification seam: current value of the process-wide node counter.
+#[cfg(all(feature = "verif", not(pushr_verif_loom)))]
+pub fn verif_node_counter() -> usize {
+    NODE_COUNTER.load(Ordering::Relaxed)
+}
+
+/// Verification seam: resets the process-wide node counter (deterministic ids per replayed history).
+#[cfg(all(feature = "verif", not(pushr_verif_loom)))]
+pub fn verif_set_node_counter(v: usize) {
+    NODE_COUNTER.store(v, Ordering::Relaxed)
+}
 
 #[derive(Clone, Debug, Hash, Eq)]
 pub struct Node {
